@@ -1054,7 +1054,9 @@ impl<AllocF: Allocator<floatX>> ZopfliCostModel<AllocF> {
     ) {
         let mut histogram_literal = [0u32; BROTLI_NUM_LITERAL_SYMBOLS];
         let mut histogram_cmd = [0u32; BROTLI_NUM_COMMAND_SYMBOLS];
-        let mut histogram_dist = [0u32; BROTLI_SIMPLE_DISTANCE_ALPHABET_SIZE];
+        // sized by the bound of distance_histogram_size (min(alphabet_size, 544)), which SetCost
+        // walks: BROTLI_SIMPLE_DISTANCE_ALPHABET_SIZE (140) only covers npostfix = ndirect = 0
+        let mut histogram_dist = [0u32; BROTLI_MAX_EFFECTIVE_DISTANCE_ALPHABET_SIZE];
         let mut cost_literal = [0.0; BROTLI_NUM_LITERAL_SYMBOLS];
         let mut pos: usize = position.wrapping_sub(last_insert_len);
         let mut min_cost_cmd: floatX = kInfinity;
